@@ -25,7 +25,7 @@ class Fam:
     """One (kind, field) witness family."""
 
     def __init__(self, kind, field, render, find, pool, code=None, single=None, minlen=0, maxlen=5, default=False,
-                 blank_ops=False, tag=''):
+                 blank_ops=False, tag='', pick=None):
         self.kind, self.field = kind, field
         self.render = render        # list[str] -> program source
         self.find = find            # ast tree -> target node (same path on pfst's tree)
@@ -36,6 +36,7 @@ class Fam:
         self.default = default      # field is the default field of the kind (node[...] forms)
         self.blank_ops = blank_ops
         self.tag = tag
+        self.pick = pick            # (rng, n) -> (old elements, candidates for new elements); default: shuffle of the pool
 
     @property
     def name(self):
@@ -66,6 +67,45 @@ PATS = ['a', '1', "'s'", 'None', '[b, c]', '{1: d}', 'E()', 'f.g', '_']
 ORPATS = ['1', "'s'", 'None', '[b, c]', 'E()', 'f.g', '2', '-3']
 B0 = lambda t: t.body[0]
 BV = lambda t: t.body[0].value
+
+
+_MIX = {'P': ['a', 'b', 'c.d', 'e()'], 'S': ['*s', '*t', '*u'], 'K': ['k=1', 'j=2', 'm=n', 'q=()', 'last=3'], 'D': ['**d', '**e']}
+_MIX_ALL = [x for v in _MIX.values() for x in v]
+
+
+def _mixed_join(el):
+    """arguments over several lines: a `*starred` that follows a keyword starts a new, slightly indented line (so it sits
+    on a LATER line at a SMALLER column than the keyword before it); some keywords start a new line too"""
+    out = ''
+    seen_kw = False
+    for i, e in enumerate(el):
+        star = e.startswith('*') and not e.startswith('**')
+        if i:
+            out += ',\n  ' if (star and seen_kw) or (e.startswith('last')) else ', '
+        out += e
+        seen_kw = seen_kw or ('=' in e and not e.startswith('*')) or e.startswith('**')
+    return out
+
+
+def _mixed_pick(rng, n):
+    """n arguments in an order Python accepts: plain positionals, then keywords mixed with *starred, then keywords mixed
+    with **double-starred; plus candidates for new elements of every kind"""
+    P, S, K, D = (v[:] for v in (_MIX['P'], _MIX['S'], _MIX['K'], _MIX['D']))
+    for v in (P, S, K, D):
+        rng.shuffle(v)
+    old = []
+    np_ = rng.randint(0, min(2, n))
+    old += [P.pop() for _ in range(np_)]
+    while len(old) < n:
+        phase2 = len(old) - np_ >= rng.randint(1, 3)
+        kinds = [k for k in (('K', 'D') if phase2 or any(x.startswith('**') for x in old) else ('K', 'S', 'S'))
+                 if {'K': K, 'S': S, 'D': D}[k]]
+        if not kinds:
+            break
+        old.append({'K': K, 'S': S, 'D': D}[rng.choice(kinds)].pop())
+    rest = P + S + K + D
+    rng.shuffle(rest)
+    return old, rest
 
 
 def families():
@@ -131,6 +171,9 @@ def families():
     add(Fam('Call', '_args', _fmt('f({X})'), BV, ['a', 'b', '*c', 'd.e', '1'], tup, str, 0, default=True, tag='pos'))
     add(Fam('Call', '_args', _fmt('f({X})'), BV, ['a=1', 'b=c', '**d', 'e=f()'], None, str, 0, tag='kw',
             default=True))
+    add(Fam('Call', '_args', lambda el: 'f(' + _mixed_join(el) + ')', BV, _MIX_ALL, None, str, 0, default=True, tag='mixed', pick=_mixed_pick))
+    add(Fam('ClassDef', '_bases', lambda el: 'class C' + ('(' + _mixed_join(el) + ')' if el else '') + ': pass', B0, _MIX_ALL, None, str, 0,
+            tag='mixed', pick=_mixed_pick))
     add(Fam('ClassDef', 'bases', lambda el: 'class C' + ('(' + ', '.join(el) + ')' if el else '') + ': pass', B0, ['A', 'B.C', '*d', 'E[F]'], tup, str, 0))
     add(Fam('ClassDef', 'keywords', lambda el: 'class C' + ('(' + ', '.join(el) + ')' if el else '') + ': pass', B0,
             ['metaclass=M', 'a=1', '**k', 'b=c'], None, str, 0))
@@ -315,7 +358,8 @@ def _entries(fam, n, a, b, s, e, new, rng):
                 i = rng.choice([s, s - n])
                 E.append(('put(i)', lambda nd: nd.put(one, i, field)))
                 E.append(('view[i]=', lambda nd: view(nd).__setitem__(i, one)))
-                E.append(('elem.replace', lambda nd: _elem(view(nd), i).replace(one)))
+                if fam.tag != 'mixed':      # an element's own field is args / keywords: a positional cannot be replaced by a keyword there
+                    E.append(('elem.replace', lambda nd: _elem(view(nd), i).replace(one)))
                 if fam.default:
                     E.append(('node[i]=', lambda nd: nd.__setitem__(i, one)))
     else:
@@ -333,7 +377,7 @@ def _entries(fam, n, a, b, s, e, new, rng):
             i = rng.choice([s, s - n])
             E.append(('put(None,i)', lambda nd: nd.put(None, i, field)))
             E.append(('del view[i]', lambda nd: view(nd).__delitem__(i)))
-            if not fam.blank_ops:   # a Compare operand's own field is `left` / `comparators`, which refuse deletion by themselves
+            if not fam.blank_ops and fam.tag != 'mixed':   # a Compare operand's / interleaved argument's own field is `left` / `comparators`, which refuse deletion by themselves
                 E.append(('elem.remove', lambda nd: _elem(view(nd), i).remove()))
                 E.append(('elem.replace(None)', lambda nd: _elem(view(nd), i).replace(None)))
             if fam.default:
@@ -355,6 +399,9 @@ def run_family_case(arg):
             continue
         pool = fam.pool[:]
         rng.shuffle(pool)
+        if fam.pick:
+            old, more = fam.pick(rng, n)
+            pool = old + more
         old = pool[:n]
         s = rng.randint(0, n)
         e = rng.randint(s, n)
@@ -461,6 +508,124 @@ def run_optional_case(arg):
                 rec['detail'] = str(ex)[:200]
             out.append(rec)
     return out
+
+
+def _source_check(root, exp, fam=None):
+    """the source pfst holds after the edit must be Python with the expected structure too"""
+    try:
+        t = ast.parse(root.src)
+    except SyntaxError as ex:
+        return f'tree is as expected but the source is not valid Python: {root.src[:200]!r} ({ex.msg})'
+    got = _dump(t, fam)
+    if got != exp:
+        return f'tree is as expected but the source parses to another structure: {root.src[:200]!r} ' + _first_diff(got, exp)
+    return None
+
+
+def run_arglike_field_case(arg):
+    """The real fields Call.args / Call.keywords / ClassDef.bases / ClassDef.keywords of calls whose positional and keyword
+    arguments are interleaved in the source.  Expected tree: a pure `ast` copy with `field[s:e] = new` (Python list).  A valid
+    source always exists (all positionals, then all keywords).  The documented refusal "... try the '_args' field" is exempt."""
+    kind, seed, nreq = arg
+    rng = random.Random(seed)
+    out = []
+    for _ in range(nreq):
+        old, rest = _mixed_pick(rng, rng.randint(2, 6))
+        inner = _mixed_join(old) if rng.random() < 0.5 else ', '.join(old)
+        src = ('f(' + inner + ')') if kind == 'Call' else ('class C(' + inner + '): pass')
+        find = BV if kind == 'Call' else B0
+        ef = 'args' if kind == 'Call' else 'bases'
+        field = rng.choice([ef, 'keywords'])
+        try:
+            exp_tree = ast.parse(src)
+        except SyntaxError:
+            continue
+        L = getattr(find(exp_tree), field)
+        n = len(L)
+        s = rng.randint(0, n)
+        e = rng.randint(s, min(n, s + 2))
+        cands = [x for x in rest if (('=' in x and not x.startswith('*')) or x.startswith('**')) == (field == 'keywords')]
+        k = rng.choice([0, 1, 1, 2])
+        if k > len(cands) or (k == 0 and s == e):
+            continue
+        new = cands[:k]
+        code = ', '.join(new) if k else None
+        if k:
+            c = ast.parse('f(' + code + ')').body[0].value
+            L[s:e] = c.args if field != 'keywords' else c.keywords
+        else:
+            del L[s:e]
+        exp = ast.dump(exp_tree)
+        a = _raw_for(rng, n, s, True)
+        b = _raw_for(rng, n, e, True)
+        if _py_bounds(n, a, b) != (s, e):
+            continue
+        for name in _arglike_ops(s, e, k):
+            out.append(_arglike_exec(kind, field, src, name, a, b, s, e, n, new, exp))
+    return out
+
+
+def _arglike_ops(s, e, k):
+    ops = ['put_slice', 'view[a:b]=']
+    if s == e:
+        ops += ['insert', 'view.insert'] + (['insert(one)'] if k == 1 else [])
+    if k == 0:
+        ops.append('del view[a:b]')
+    if k == 1 and e - s == 1:
+        ops.append('put(i)')
+    return ops
+
+
+def _arglike_exec(kind, field, src, name, a, b, s, e, n, new, exp):
+    code = ', '.join(new) if new else None
+    sl = _pyslice(a, b, n)
+    find = BV if kind == 'Call' else B0
+    fn = {'put_slice': lambda nd: nd.put_slice(code, a, b, field),
+          'view[a:b]=': lambda nd: getattr(nd, field).__setitem__(sl, code),
+          'insert': lambda nd: nd.insert(code, a, field, one=False),
+          'view.insert': lambda nd: getattr(nd, field).insert(code, a, one=False),
+          'insert(one)': lambda nd: nd.insert(code, a, field),
+          'del view[a:b]': lambda nd: getattr(nd, field).__delitem__(sl),
+          'put(i)': lambda nd: nd.put(code, s, field)}[name]
+    rec = {'fam': f'{kind}.{field}', 'tag': 'interleaved', 'op': name, 'sigop': 'insert-empty-slice' if s == e else name,
+           'src': src, 'a': a, 'b': b, 'new': new, 'n': n, 'k': len(new), 's': s, 'e': e, 'layout': '\n' in src}
+    try:
+        root = _fst(src)
+        fn(find(root.a).f)
+        got = ast.dump(root.a)
+        if got != exp:
+            rec['fail'] = 'structure'
+            rec['detail'] = f'{root.src!r}: ' + _first_diff(got, exp)
+        else:
+            d = _source_check(root, exp)
+            if d:
+                rec['fail'] = 'source'
+                rec['detail'] = d
+    except Exception as ex:
+        if type(ex).__name__ in ('NodeError', 'ValueError'):
+            rec['refused'] = str(ex)[:80]       # ordering refusals ("try the '_args' field", "cannot precede ...") are legitimate
+        else:
+            rec['fail'] = 'raised:' + type(ex).__name__
+            rec['detail'] = str(ex)[:200]
+    return rec
+
+
+def replay_interleaved(w):
+    kind, field = w['fam'].split('.')
+    find = BV if kind == 'Call' else B0
+    exp_tree = ast.parse(w['src'])
+    L = getattr(find(exp_tree), field)
+    if w['new']:
+        c = ast.parse('f(' + ', '.join(w['new']) + ')').body[0].value
+        L[w['s']:w['e']] = c.args if field != 'keywords' else c.keywords
+    else:
+        del L[w['s']:w['e']]
+    return _arglike_exec(kind, field, w['src'], w['op'], w['a'], w['b'], w['s'], w['e'], w['n'], w['new'], ast.dump(exp_tree))
+
+
+def replay_view_history(w):
+    fam = next(f for f in FAMILIES if f.name == w['fam'] and f.tag == (w.get('tag') or ''))
+    return _view_history(fam, w['old'], w['rest'], w['a'], w['b'], [tuple(h) for h in w['hist']])
 
 
 def _first_diff(a, b, ctx=70):
@@ -587,9 +752,155 @@ def run_corpus_case(arg):
     return out
 
 
+VIEW_OPS = ([('insert', i) for i in (0, 1, -1, 'end', 9)] + [('insert1', i) for i in (0, -1, 'end')]
+            + [('append',), ('prepend',), ('extend',), ('prextend',), ('replace',), ('remove',), ('cut',)]
+            + [('set', a, b) for a, b in ((None, None), (1, None), (None, -1), (0, 1), (1, 1))]
+            + [('setnone', a, b) for a, b in ((1, None), (0, 1), (None, -1))]
+            + [('del', a, b) for a, b in ((1, None), (0, 1), (None, -1))]
+            + [(nm, i) for nm in ('seti', 'setinone', 'deli') for i in (0, -1, 1)])
+
+
+def _view_history(fam, old, rest, w0, w1, hist):
+    """Run the operations `hist` on ONE view object (`view[w0:w1]`, or the whole-field view if w0 is None) and after every
+    step compare: the whole tree with the rendering of old[:w0] + W + old[w1:] (W = a plain Python list treated with the
+    same list operation), len(view), view.start/stop, and the elements the view shows."""
+    src = fam.render(old)
+    done = []
+    rec = {'fam': fam.name, 'tag': fam.tag, 'op': 'view-sequence', 'src': src, 'a': w0, 'b': w1, 'new': done, 'layout': False,
+           'old': old, 'rest': rest, 'hist': [list(h) for h in hist]}
+    lo = 0 if w0 is None else w0
+    hi = len(old) if w1 is None else w1
+    pre, W, post = old[:lo], old[lo:hi], old[hi:]
+    fresh = iter(rest * 4)
+    try:
+        root = _fst(src)
+        node = fam.find(root.a).f
+        v = getattr(node, fam.field)
+        if w0 is not None:
+            v = v[w0:w1]
+        for op in hist:
+            nm = op[0]
+            W2 = W[:]
+            new = []
+            # ---- the Python list model of the step
+            if nm in ('insert', 'extend', 'prextend', 'set', 'replace'):
+                new = [next(fresh), next(fresh)][:1 + (len(done) + len(W)) % 2]
+            elif nm in ('insert1', 'append', 'prepend', 'seti'):
+                new = [next(fresh)]
+            if nm in ('insert', 'insert1'):
+                i = op[1]
+                i2 = len(W) if i == 'end' else (max(0, i + len(W)) if i < 0 else min(i, len(W)))
+                W2[i2:i2] = new
+            elif nm == 'append':
+                W2.append(new[0])
+            elif nm == 'prepend':
+                W2.insert(0, new[0])
+            elif nm == 'extend':
+                W2.extend(new)
+            elif nm == 'prextend':
+                W2[0:0] = new
+            elif nm in ('set', 'setnone', 'del'):
+                s_, e_, _ = slice(op[1], op[2]).indices(len(W))
+                if s_ > e_ or (nm != 'set' and s_ == e_):
+                    continue
+                W2[s_:e_] = new
+            elif nm in ('seti', 'setinone', 'deli'):
+                if not -len(W) <= op[1] < len(W):
+                    continue
+                if nm == 'seti':
+                    W2[op[1]] = new[0]
+                else:
+                    del W2[op[1]]
+            elif nm == 'replace':
+                W2[:] = new
+            else:
+                if not W:
+                    continue
+                W2[:] = []
+            want = pre + W2 + post
+            if len(want) < max(fam.minlen, 1 if nm in ('remove', 'cut') or fam.minlen else 0):
+                continue
+            try:
+                exp_tree = ast.parse(fam.render(want))
+            except SyntaxError:
+                break               # the request has no valid Python result (argument order): stop this history
+            # ---- the same step on the real view
+            code = fam.code(new) if new else None
+            done.append([nm] + list(op[1:]) + [new])
+            if nm == 'insert':
+                v.insert(code, op[1], one=False)
+            elif nm == 'insert1':
+                v.insert(fam.single(new[0]), op[1])
+            elif nm == 'append':
+                v.append(fam.single(new[0]))
+            elif nm == 'prepend':
+                v.prepend(fam.single(new[0]))
+            elif nm == 'extend':
+                v.extend(code)
+            elif nm == 'prextend':
+                v.prextend(code)
+            elif nm == 'set':
+                v[op[1]:op[2]] = code
+            elif nm == 'setnone':
+                v[op[1]:op[2]] = None
+            elif nm == 'del':
+                del v[op[1]:op[2]]
+            elif nm == 'seti':
+                v[op[1]] = fam.single(new[0])
+            elif nm == 'setinone':
+                v[op[1]] = None
+            elif nm == 'deli':
+                del v[op[1]]
+            elif nm == 'replace':
+                v.replace(code, one=False)
+            elif nm == 'remove':
+                v.remove()
+            else:
+                v.cut()
+            W = W2
+            # ---- compare
+            got, exp = ast.dump(root.a), ast.dump(exp_tree)
+            if got != exp:
+                rec['fail'], rec['detail'] = 'structure', f'after step {len(done)} {done[-1]}: ' + _first_diff(got, exp)
+                break
+            off = 1 if (fam.tag == 'docstr') else 0
+            exp_win = [ast.dump(x) for x in _velems(fam, exp_tree)[len(pre):len(pre) + len(W)]]
+            got_win = [_vdump(v[i]) for i in range(len(v))]
+            if w0 is not None and (len(v) != len(W) or (v.start, v.stop) != (len(pre), len(pre) + len(W)) or got_win != exp_win):
+                rec['fail'] = 'view-window'
+                rec['detail'] = (f'after step {len(done)} {done[-1]}: view has len {len(v)} [{v.start}:{v.stop}] showing {got_win[:4]}; '
+                                 f'a Python list window has len {len(W)} [{len(pre)}:{len(pre) + len(W)}] showing {exp_win[:4]}')
+                break
+            if w0 is None and (len(v) != len(want) or got_win != [ast.dump(x) for x in _velems(fam, exp_tree)]):
+                rec['fail'] = 'view-window'
+                rec['detail'] = f'after step {len(done)} {done[-1]}: whole-field view has len {len(v)}, field has {len(want)} elements'
+                break
+    except _Skip:
+        return None
+    except Exception as ex:
+        rec['fail'] = 'raised:' + type(ex).__name__
+        rec['detail'] = f'at step {len(done)} {done[-1] if done else None}: ' + str(ex)[:200]
+    return rec if done else None
+
+
+def _velems(fam, tree):
+    """elements of the (possibly virtual) field on a CPython tree, in source order, computed without pfst"""
+    node = fam.find(tree)
+    if fam.field == '_body':
+        return node.body[1:] if fam.tag == 'docstr' else node.body
+    if fam.field in ('_args', '_bases'):
+        return sorted(getattr(node, fam.field[1:]) + node.keywords, key=lambda n: (n.lineno, n.col_offset))
+    return getattr(node, fam.field)
+
+
+def _vdump(x):
+    if isinstance(x, str) or not hasattr(x, 'a') or x.a is None:
+        raise _Skip()
+    return ast.dump(x.a)
+
+
 def run_view_seq_case(arg):
-    """A sub-view kept across two operations must keep showing what a Python list of its window shows (its `_stop`
-    follows the length changes), and the tree must be the rendering of old[:w0] + window + old[w1:]."""
+    """(family index, seed, n) : random histories of 2-4 operations on bounded and whole-field views"""
     fi, seed, nreq = arg
     rng = random.Random(seed)
     fam = FAMILIES[fi]
@@ -598,95 +909,50 @@ def run_view_seq_case(arg):
         n = rng.randint(max(fam.minlen, 2), min(fam.maxlen, len(fam.pool) - 3))
         pool = fam.pool[:]
         rng.shuffle(pool)
-        old, rest = pool[:n], pool[n:]
-        w0 = rng.randint(0, n)
-        w1 = rng.randint(w0, n)
-        W = old[w0:w1]
-        ops = []
-        src = fam.render(old)
-        rec = {'fam': fam.name, 'tag': fam.tag, 'op': 'view-sequence', 'src': src, 'a': w0, 'b': w1, 'new': ops, 'layout': False}
-        try:
-            root = _fst(src)
-            node = fam.find(root.a).f
-            v = getattr(node, fam.field)[w0:w1]
-            bad = None
-            for step in range(2):
-                new = [rest[(2 * step + i) % len(rest)] for i in range(rng.choice([1, 1, 2]))]
-                op = rng.choice(['insert', 'append', 'extend', 'prepend', 'prextend', 'set', 'del', 'deli', 'replace'])
-                code = fam.code(new)
-                if op == 'insert':
-                    i = rng.randint(-len(W) - 2, len(W) + 2)
-                    ops.append([op, i, new])
-                    v.insert(code, i, one=False)
-                    i2 = max(0, i + len(W)) if i < 0 else min(i, len(W))
-                    W[i2:i2] = new
-                elif op == 'append':
-                    new = new[:1]
-                    ops.append([op, new])
-                    v.append(fam.single(new[0]))
-                    W.append(new[0])
-                elif op == 'extend':
-                    ops.append([op, new])
-                    v.extend(code)
-                    W.extend(new)
-                elif op == 'prepend':
-                    new = new[:1]
-                    ops.append([op, new])
-                    v.prepend(fam.single(new[0]))
-                    W.insert(0, new[0])
-                elif op == 'prextend':
-                    ops.append([op, new])
-                    v.prextend(code)
-                    W[0:0] = new
-                elif op in ('set', 'del'):
-                    a = rng.randint(-len(W) - 1, len(W) + 1)
-                    b = rng.choice([None, rng.randint(-len(W) - 1, len(W) + 1)])
-                    s_, e_, _ = slice(a, b).indices(len(W))
-                    if s_ > e_ or (op == 'del' and s_ == e_):
-                        continue
-                    if len(old) - (w1 - w0) + len(W) - (e_ - s_) + (len(new) if op == 'set' else 0) < max(fam.minlen, 1):
-                        continue
-                    ops.append([op, a, b, new if op == 'set' else None])
-                    if op == 'set':
-                        v[a:b] = code
-                        W[s_:e_] = new
-                    else:
-                        del v[a:b]
-                        del W[s_:e_]
-                elif op == 'deli':
-                    if not W or len(old) - (w1 - w0) + len(W) - 1 < max(fam.minlen, 1):
-                        continue
-                    i = rng.randint(-len(W), len(W) - 1)
-                    ops.append([op, i])
-                    del v[i]
-                    del W[i]
-                else:
-                    ops.append([op, new])
-                    v.replace(code, one=False)
-                    W[:] = new
-                want = old[:w0] + W + old[w1:]
-                exp_tree = ast.parse(fam.render(want))
-                if ast.dump(root.a) != ast.dump(exp_tree):
-                    bad = ('structure', _first_diff(ast.dump(root.a), ast.dump(exp_tree)))
-                    break
-                exp_win = [ast.dump(x) for x in getattr(fam.find(exp_tree), fam.field)[w0:w0 + len(W)]]
-                got_win = [ast.dump(v[i].a) for i in range(len(v))]
-                if got_win != exp_win:
-                    bad = ('view-window', f'view shows {len(got_win)} elements {got_win[:3]}..., a Python list of the window has {len(exp_win)}')
-                    break
-            if bad:
-                rec['fail'], rec['detail'] = bad
-        except Exception as ex:
-            rec['fail'] = 'raised:' + type(ex).__name__
-            rec['detail'] = str(ex)[:200]
-        if ops:
-            out.append(rec)
+        old, rest = fam.pick(rng, n) if fam.pick else (pool[:n], pool[n:])
+        if rng.random() < 0.2:
+            w0 = w1 = None
+        else:
+            w0 = rng.randint(0, n)
+            w1 = rng.randint(w0, n)
+        r = _view_history(fam, old, rest, w0, w1, [rng.choice(VIEW_OPS) for _ in range(rng.randint(2, 4))])
+        if r:
+            out.append(r)
     return out
 
 
+def run_view_product_case(arg):
+    """deterministic: (family index, n, window, first op index) x every second op"""
+    fi, n, w0, w1, i1 = arg
+    fam = FAMILIES[fi]
+    old, rest = fam.pool[:n], fam.pool[n:]
+    out = []
+    for o2 in VIEW_OPS:
+        r = _view_history(fam, old, rest, w0, w1, [VIEW_OPS[i1], o2])
+        if r:
+            out.append(r)
+    return out
+
+
+def view_product_items(full):
+    items = []
+    fis = [i for i, f in enumerate(FAMILIES) if (f.name, f.tag) == ('List.elts', '')]
+    if full:
+        fis += [i for i, f in enumerate(FAMILIES) if (f.name, f.tag) in (('Module.body', ''), ('Call._args', 'pos'))]
+    for fi in fis:
+        n = min(5, len(FAMILIES[fi].pool) - 3)
+        wins = [(1, 4), (0, 3), (2, n), (1, 2), (2, 2), (None, None)] if not full else \
+            [(None, None)] + [(a, b) for a in range(n + 1) for b in range(a, n + 1)]
+        for w0, w1 in wins:
+            for i1 in range(len(VIEW_OPS)):
+                items.append((fi, n, w0, w1, i1))
+    return items
+
+
 FAMILIES = families()
-VIEW_SEQ_FAMILIES = [i for i, f in enumerate(FAMILIES) if (f.name, f.tag) in (('List.elts', ''), ('Module.body', ''), ('Tuple.elts', ''),
-                                                                               ('FunctionDef.body', ''), ('Delete.targets', ''))]
+VIEW_SEQ_FAMILIES = [i for i, f in enumerate(FAMILIES) if (f.name, f.tag) in (
+    ('List.elts', ''), ('Module.body', ''), ('Tuple.elts', ''), ('FunctionDef.body', ''), ('Delete.targets', ''),
+    ('Call._args', 'pos'), ('Call._args', 'mixed'), ('ClassDef._bases', 'mixed'), ('FunctionDef._body', 'docstr'), ('Set.elts', ''))]
 for _f in FAMILIES:
     if _f.kind == 'Compare':
         _f.render = _render_compare
